@@ -314,7 +314,18 @@ fn scan_comments(src: &str) -> Vec<String> {
 }
 /// (comments, some comment lies inside an interpolation hole)
 fn scan_comments2(src: &str) -> (Vec<String>, bool) {
+    let r = scan_comments3(src);
+    (r.0, r.1)
+}
+/// (comments, a comment lies inside a hole, byte offset of each comment,
+///  a comment lies inside the brackets of a `=pattern` match term)
+fn scan_comments3(src: &str) -> (Vec<String>, bool, Vec<usize>, bool) {
     let mut in_hole = false;
+    let mut offsets = vec![];
+    let mut in_match_term = false;
+    let mut pat_active = false;
+    let mut pdepth: i32 = 0;
+    let byte_at: Vec<usize> = src.char_indices().map(|(b, _)| b).collect();
     let cs: Vec<char> = src.chars().collect();
     let mut out = vec![];
     let mut stack = vec![Ctx::Code(0)];
@@ -331,11 +342,37 @@ fn scan_comments2(src: &str) -> (Vec<String>, bool) {
                     }
                     let text: String = cs[i..j].iter().collect();
                     out.push(text.trim_end().to_string());
+                    offsets.push(byte_at[i]);
+                    if pat_active && pdepth > 0 {
+                        in_match_term = true;
+                    }
                     if !top_level(&stack) {
                         in_hole = true;
                     }
                     i = j;
                     continue;
+                }
+                // lexical extent of a `=pattern` match term: from `=` up to whitespace / separator at bracket depth 0
+                if !pat_active
+                    && c == '='
+                    && cs.get(i + 1).is_some_and(|n| !n.is_whitespace() && *n != '>' && *n != '=')
+                    && (i == 0 || cs[i - 1] != '=')
+                {
+                    pat_active = true;
+                    pdepth = 0;
+                } else if pat_active {
+                    match c {
+                        '(' | '[' => pdepth += 1,
+                        ')' | ']' => {
+                            pdepth -= 1;
+                            if pdepth < 0 {
+                                pat_active = false;
+                            }
+                        }
+                        ',' | '|' | '}' | '{' if pdepth == 0 => pat_active = false,
+                        w if w.is_whitespace() && pdepth == 0 => pat_active = false,
+                        _ => {}
+                    }
                 }
                 if c == '"' {
                     if i + 2 < cs.len() && cs[i + 1] == '"' && cs[i + 2] == '"' {
@@ -388,7 +425,7 @@ fn scan_comments2(src: &str) -> (Vec<String>, bool) {
             }
         }
     }
-    (out, in_hole)
+    (out, in_hole, offsets, in_match_term)
 }
 
 
@@ -412,6 +449,9 @@ struct Sig {
     toplevel_type_binding: bool, // F41: a statement-level chain bound to a type pattern: `'d<'t> = ...`
     self_default_pattern: bool, // F42: Type::SelfDefault inside a pattern
     name_then_paren: bool, // F43: a step ending in a bare tuple name followed by a step starting with `(`
+    select_then_tuple: bool, // F45: bare `!` directly followed by an anonymous tuple term
+    bodyless_fn_then_block: bool, // F46: a body-less function directly followed by a block (same chain or next step)
+    multi_hole: bool, // F47 (with trivia): a """ string with an interpolation hole
     in_pattern: bool,
 }
 fn unprotected_space(c: char) -> bool {
@@ -495,8 +535,38 @@ fn sig_type(t: &Type, sig: &mut Sig) {
         _ => {}
     }
 }
+/// mirrors simplify.rs `contains_match` / `is_frame_free_chain` (negated)
+fn term_contains_match(t: &Term) -> bool {
+    match t {
+        Term::Match(_) => true,
+        Term::Tuple(tuple) => tuple.fields.iter().any(|f| match &f.value {
+            FieldValue::Chain(c) => chain_binds(c),
+            FieldValue::Spread(_) => false,
+        }),
+        Term::Select(Some(chains), _) => chains.iter().any(chain_binds),
+        _ => false,
+    }
+}
 fn chain_binds(c: &Chain) -> bool {
-    c.match_pattern.is_some() || c.terms.iter().any(|t| matches!(t, Term::Match(_)))
+    c.match_pattern.is_some() || c.terms.iter().any(term_contains_match)
+}
+fn is_bodyless_function(t: &Term) -> bool {
+    matches!(t, Term::Function(f) if f.body.is_none())
+}
+fn type_ends_in_bare_name(t: &Type) -> bool {
+    match t {
+        Type::Tuple(tt) => tt.name.is_some() && tt.fields.is_empty() && !tt.is_partial,
+        Type::Union(u) => u.types.last().is_some_and(type_ends_in_bare_name),
+        Type::Intersection(ts) => ts.last().is_some_and(type_ends_in_bare_name),
+        _ => false,
+    }
+}
+fn chain_starts_with_paren(c: &Chain) -> bool {
+    match &c.match_pattern {
+        Some(Match::Partial(p)) => p.name.is_none(),
+        Some(Match::Type(_) | Match::Or(_) | Match::As(..)) => true,
+        _ => false,
+    }
 }
 fn sig_match(m: &Match, in_hole: bool, sig: &mut Sig) {
     match m {
@@ -536,6 +606,16 @@ fn sig_chain(c: &Chain, in_hole: bool, sig: &mut Sig) {
     if let Some(m) = &c.match_pattern {
         sig_match(m, in_hole, sig);
     }
+    for w in c.terms.windows(2) {
+        if matches!(&w[0], Term::Select(None, _))
+            && matches!(&w[1], Term::Tuple(t) if matches!(t.name, TupleName::Anonymous))
+        {
+            sig.select_then_tuple = true;
+        }
+        if is_bodyless_function(&w[0]) && matches!(&w[1], Term::Block(_)) {
+            sig.bodyless_fn_then_block = true;
+        }
+    }
     let n = c.terms.len();
     for (i, t) in c.terms.iter().enumerate() {
         if i + 1 < n && matches!(t, Term::Block(_)) && ends_in_tail(t) {
@@ -546,14 +626,19 @@ fn sig_chain(c: &Chain, in_hole: bool, sig: &mut Sig) {
 }
 fn sig_steps(chains: &[Chain], sig: &mut Sig) {
     for w in chains.windows(2) {
-        let ends_bare = matches!(w[0].terms.last(), Some(Term::Tuple(t)) if matches!(t.name, TupleName::Named(_)) && t.fields.is_empty());
-        let starts_paren = match &w[1].match_pattern {
-            Some(Match::Partial(p)) => p.name.is_none(),
-            Some(Match::Type(_) | Match::Or(_) | Match::As(..)) => true,
+        let ends_bare = match w[0].terms.last() {
+            Some(Term::Tuple(t)) => matches!(t.name, TupleName::Named(_)) && t.fields.is_empty(),
+            Some(Term::Match(Match::Tuple(mt))) => mt.name.is_some() && mt.fields.is_empty(),
             _ => false,
         };
-        if ends_bare && starts_paren {
+        if ends_bare && chain_starts_with_paren(&w[1]) {
             sig.name_then_paren = true;
+        }
+        if w[0].terms.last().is_some_and(is_bodyless_function)
+            && w[1].match_pattern.is_none()
+            && matches!(w[1].terms.first(), Some(Term::Block(_)))
+        {
+            sig.bodyless_fn_then_block = true;
         }
     }
 }
@@ -610,6 +695,9 @@ fn sig_term(t: &Term, in_hole: bool, sig: &mut Sig) {
             }
             for seg in segs {
                 if let StrSegment::Hole(e) = seg {
+                    if *style == StringStyle::Multi {
+                        sig.multi_hole = true;
+                    }
                     sig_expression(e, true, sig);
                 }
             }
@@ -649,6 +737,13 @@ fn sig_term(t: &Term, in_hole: bool, sig: &mut Sig) {
 }
 fn signature(p: &Program) -> Sig {
     let mut sig = Sig::default();
+    for w in p.statements.windows(2) {
+        if let (Statement::TypeAlias { type_definition, .. }, Statement::Expression(seq)) = (&w[0], &w[1]) {
+            if type_ends_in_bare_name(type_definition) && seq.chains.first().is_some_and(chain_starts_with_paren) {
+                sig.name_then_paren = true;
+            }
+        }
+    }
     for s in &p.statements {
         match s {
             Statement::Expression(seq) => {
@@ -664,6 +759,50 @@ fn signature(p: &Program) -> Sig {
         }
     }
     sig
+}
+
+/// Offsets of the binding patterns (`pat = chain`), for the "comment inside a pattern" signature.
+fn bind_spans(p: &Program) -> Vec<(usize, usize)> {
+    fn chain(c: &Chain, out: &mut Vec<(usize, usize)>) {
+        if let Some(sp) = c.bind_span.get() {
+            out.push((sp.offset, sp.offset + sp.length));
+        }
+        c.terms.iter().for_each(|t| term(t, out));
+    }
+    fn expr(e: &Expression, out: &mut Vec<(usize, usize)>) {
+        for b in &e.branches {
+            b.condition.chains.iter().for_each(|c| chain(c, out));
+            if let Some(k) = &b.consequence {
+                k.chains.iter().for_each(|c| chain(c, out));
+            }
+        }
+    }
+    fn term(t: &Term, out: &mut Vec<(usize, usize)>) {
+        match t {
+            Term::Tuple(t) => t.fields.iter().for_each(|f| {
+                if let FieldValue::Chain(c) = &f.value {
+                    chain(c, out)
+                }
+            }),
+            Term::Block(e) => expr(e, out),
+            Term::Function(f) => {
+                if let Some(b) = &f.body {
+                    expr(b, out)
+                }
+            }
+            Term::Spawn(inner, _) => term(inner, out),
+            Term::Select(Some(cs), _) => cs.iter().for_each(|c| chain(c, out)),
+            // holes carry offsets relative to the hole: not usable
+            _ => {}
+        }
+    }
+    let mut out = vec![];
+    for s in &p.statements {
+        if let Statement::Expression(seq) = s {
+            seq.chains.iter().for_each(|c| chain(c, &mut out));
+        }
+    }
+    out
 }
 
 // ------------------------------------------------------------------------------------------
@@ -702,6 +841,7 @@ fn e2e(src: &str, with_out: bool) -> String {
     let mut feats = BTreeMap::new();
     count_heads(&d_program(&ast), &mut feats);
     let sig = signature(&ast);
+    let ast_for_sig = ast.clone();
     let (a1, s1) = (ast.clone(), src.to_string());
     let out1 = match guarded(move || format_program(&a1, &s1)) {
         Err(loc) => {
@@ -764,7 +904,9 @@ fn e2e(src: &str, with_out: bool) -> String {
             }
         }
     }
-    let (c_in, comment_in_hole) = scan_comments2(src);
+    let (c_in, comment_in_hole, c_offsets, c_in_match) = scan_comments3(src);
+    let binds = bind_spans(&ast_for_sig);
+    let comment_in_pattern = c_in_match || c_offsets.iter().any(|o| binds.iter().any(|(a, b)| a <= o && o < b));
     let mut sigs = vec![];
     if sig.multi_blank2 {
         sigs.push("multi-blank2");
@@ -811,6 +953,15 @@ fn e2e(src: &str, with_out: bool) -> String {
     if !c_in.is_empty() {
         sigs.push("has-comment");
     }
+    if comment_in_pattern {
+        sigs.push("comment-in-pattern");
+    }
+    if sig.select_then_tuple {
+        sigs.push("select-then-tuple");
+    }
+    if sig.bodyless_fn_then_block {
+        sigs.push("bodyless-fn-then-block");
+    }
     if sig.multi_branch && !c_in.is_empty() {
         sigs.push("comment-and-branches");
     }
@@ -823,6 +974,9 @@ fn e2e(src: &str, with_out: bool) -> String {
     }
     if c_in.len() >= 2 {
         sigs.push("two-comments");
+    }
+    if sig.multi_hole && (!c_in.is_empty() || sigs.contains(&"blank-line")) {
+        sigs.push("multi-hole-trivia");
     }
     {
         // a comment directly after `=>` on its line, or a comment line followed by `=>` (F38)
